@@ -15,7 +15,7 @@ pub fn prop() -> Prop {
 fn spec() -> Spec {
     Spec {
         kinds: vec![Kind { name: "random_reals", quick: 1_000_000, thorough: 30_000_000, serial: false }],
-        rule: "(a) exhaustive 5-degree lattice (from,to,angle) in [-720,720]^3 decided in exact integer arithmetic, through Constraints::new, from_degrees and update_range, joint index rotating; (b) random real (from,to) in [-4pi,4pi]^2 per joint, six independent joints per call, angles kept >= 1e-9 from the arc ends, with turn-shift metamorphic variants k=-2..2, centre acceptance and filter==compliant; non-trivial = the six joints do not all give the same verdict trivially (at least one constrained joint); distinct = hash(from,to,angles) Workload additions: update_range as a history (earlier limits share one bound / are unconstrained / unrelated, optional intermediate update); from == to written with zeros of opposite sign; arcs a few ulps to a nanoradian wide; wrap-around ranges with both limits in (pi,2pi); from_degrees judged against degrees converted by the monitor; a quarter of the deciding angles 2e-9..1e-6 rad next to an arc end.",
+        rule: "(a) exhaustive 5-degree lattice (from,to,angle) in [-720,720]^3 decided in exact integer arithmetic, through Constraints::new, from_degrees and update_range, joint index rotating; (b) random real (from,to) in [-4pi,4pi]^2 per joint, six independent joints per call, angles kept >= 1e-9 from the arc ends, with turn-shift metamorphic variants k=-2..2, centre acceptance and filter==compliant; non-trivial = the six joints do not all give the same verdict trivially (at least one constrained joint); distinct = hash(from,to,angles) Workload additions: update_range as a history (earlier limits share one bound / are unconstrained / unrelated, optional intermediate update); from == to written with zeros of opposite sign; arcs a few ulps to a nanoradian wide; wrap-around ranges with both limits in (pi,2pi); from_degrees judged against degrees converted by the monitor; a quarter of the deciding angles 2e-9..1e-6 rad next to an arc end. Rounds 7-9: tiny forbidden gap next to a full turn; infinite bounds.",
         assumptions: vec![
             "from > to with from == to (mod 2pi) is degenerate (zero width vs full turn is not defined by the property) and is skipped",
             "random reals within 1e-9 rad of an arc end are inconclusive",
